@@ -1,10 +1,14 @@
 import Tmv.Drv.Core
 import Tmv.Model.Light
 /-! Line-protocol driver for C09 (light client). Ops:
-  vs id=<n> vals=<vid:pow,...>
-  blk id=<n> chain=<n> h=<int> t=<int> vals=<vs> hv=<vs> next=<vs> last=<blk|0> app=<n> basic=<0|1> commit=<0|1> sign=<vids|->
+  vs id=<n> vals=<vid:pow,...> ord=<vids in the set's own order (power desc, address asc)>
+  blk id=<n> chain=<n> h=<int> t=<int> vals=<vs> hv=<vs> next=<vs> last=<blk|0> app=<n> basic=<0|1> commit=<0|1>
+      sign=<vids|-> (valid for-block signatures) badsig=<vids|-> (for-block flag, invalid signature) nilv=<vids|-> (nil votes)
   prov id=<n> chain=<n> blocks=<blk,...|-> late=<k>:<blk,...> ov=<call>:<resp>,... (resp: noresp|notfound|toohigh|bad|b<blk>)
   new chain= period= h= hash=<blk|0> seq=<0|1> num= den= drift= prune= primary=<prov> wit=<prov,...> order=<prov,...>
+      [keep=1 opts=<0|1>]  keep=1: on the existing store (opts=0 NewClientFromTrustedStore, opts=1 NewClient with the trust options)
+  cleanup
+  vheader blk=<blk> now= order=<prov,...>
   verify h= now= order=<prov,...>
   update now= order=<prov,...>
 Hash ids are interned in order of first appearance (the Go side interns the real hashes the same way). -/
@@ -17,7 +21,8 @@ structure St where
   vss : List (Nat × ValSet) := []
   blks : List (Nat × LightBlock) := []
   provs : List (Nat × Prov) := []
-  client : Option Client := none
+  client : Option Client := none   -- the session: store, provider call state, evidence
+  alive : Bool := false            -- whether the last constructor call returned a usable client
 
 def intern (tab : List String) (s : String) : List String × Nat :=
   match tab.idxOf? s with
@@ -90,6 +95,10 @@ def mkSched (order : List Nat) (ws : List Prov) : List Nat :=
 
 def showBlk (b : LightBlock) : String := s!"{b.height}:{b.hash}"
 
+def showStore (c : Client) : String :=
+  let store := if c.store.blocks.isEmpty then "-" else ",".intercalate (c.store.blocks.map showBlk)
+  s!"store={store} size={c.store.size}"
+
 def showClient (c : Client) : String :=
   let store := if c.store.blocks.isEmpty then "-" else ",".intercalate (c.store.blocks.map showBlk)
   let latest := match c.latest with | some b => showBlk b | none => "-"
@@ -105,33 +114,47 @@ def step (st : St) (toks : List String) : St × String :=
   let bad := (st, "bad-op")
   match toks with
   | "vs" :: rest =>
-    match (kv rest "id").bind String.toNat?, (kv rest "vals").bind parsePairs with
-    | some id, some vals =>
+    match (kv rest "id").bind String.toNat?, (kv rest "vals").bind parsePairs, (kv rest "ord").bind natList with
+    | some id, some vals, some ord =>
       if vals.isEmpty || !strictlyAsc vals || vals.any (fun p => p.2 = 0 || p.1 ≥ 10) then bad else
+      -- `ord` must be a permutation of the ids
+      if ord.length ≠ vals.length || !ord.all (fun i => vals.any fun p => p.1 == i) || !ord.Nodup then bad else
       let (tab, h) := intern st.vsTab (showPairs vals)
-      ({ st with vsTab := tab, vss := (id, { vals := vals, hash := h }) :: st.vss }, s!"vs {h}")
-    | _, _ => bad
+      let ordered := ord.filterMap fun i => vals.find? fun p => p.1 == i
+      ({ st with vsTab := tab, vss := (id, { vals := ordered, hash := h }) :: st.vss }, s!"vs {h}")
+    | _, _, _ => bad
   | "blk" :: rest =>
     let n := fun k => (kv rest k).bind String.toNat?
     match n "id", n "chain", (kv rest "h").bind String.toInt?, (kv rest "t").bind String.toInt?,
           (n "vals").bind (lookup st.vss), (n "hv").bind (lookup st.vss), (n "next").bind (lookup st.vss),
-          n "last", n "app", n "basic", n "commit", (kv rest "sign").bind natList with
+          n "last", n "app", n "basic", n "commit", (kv rest "sign").bind natList,
+          (kv rest "badsig").bind natList, (kv rest "nilv").bind natList with
     | some id, some chain, some h, some t, some vals, some hv, some nxt, some last, some app,
-      some basic, some commit, some sign =>
+      some basic, some commit, some sign, some badsig, some nilv =>
       let lastHash := if last = 0 then some 0 else (lookup st.blks last).map (·.hash)
       match lastHash with
       | none => bad
       | some lh =>
-        if h < 1 || t < 0 || sign.any (fun s => !(vals.vals.any fun p => p.1 == s)) then bad else
+        if h < 1 || t < 0 || (sign ++ badsig ++ nilv).any (fun s => !(vals.vals.any fun p => p.1 == s))
+            || !(sign ++ badsig ++ nilv).Nodup then bad else
         let content := s!"{chain}|{h}|{t}|{hv.hash}|{nxt.hash}|{lh}|{app}|{basic}"
         let (tab, hh) := intern st.hdrTab content
         let hdr : Header := {
           chain := chain, height := h, time := t, valsHash := hv.hash, lastBlockHash := lh,
           appHash := app, consHash := 0, resHash := 0, basicOK := basic != 0, hash := hh,
           nextValsHash := nxt.hash }
-        let b : LightBlock := { hdr := hdr, commitOK := commit != 0, signers := sign, vals := vals }
+        let sigs : List (CommitVerify.CommitSig Nat) := vals.vals.map fun p =>
+          if sign.contains p.1 then { flag := 2, addr := [UInt8.ofNat p.1], ts := t, sig := 1 }
+          else if badsig.contains p.1 then { flag := 2, addr := [UInt8.ofNat p.1], ts := t, sig := 0 }
+          else if nilv.contains p.1 then { flag := 3, addr := [UInt8.ofNat p.1], ts := t, sig := 1 }
+          else { flag := 1, addr := [], ts := 0, sig := 0 }
+        let cm : CommitVerify.Commit Nat := {
+          height := (if commit != 0 then h else h + 1), round := 0
+          blockID := { hash := List.replicate 32 (UInt8.ofNat hh), total := 1, psHash := List.replicate 32 1 }
+          sigs := sigs }
+        let b : LightBlock := { hdr := hdr, commitOK := commit != 0, commit := cm, vals := vals }
         ({ st with hdrTab := tab, blks := (id, b) :: st.blks }, s!"blk {hh}")
-    | _, _, _, _, _, _, _, _, _, _, _, _ => bad
+    | _, _, _, _, _, _, _, _, _, _, _, _, _, _ => bad
   | "prov" :: rest =>
     let blkList := fun (s : String) => (natList s).bind fun l => l.mapM (lookup st.blks)
     let late : Option (Nat × List LightBlock) :=
@@ -167,13 +190,26 @@ def step (st : St) (toks : List String) : St × String :=
         let cfg : Config := {
           chain := chain, period := period, sequential := seq != 0,
           level := if seq != 0 then { num := 1, den := 3 } else { num := num, den := den },
-          drift := drift, pruning := prune, fuel := fuelDefault }
-        match newClient cfg primary wits (mkSched order) period h hv with
-        | .error e => ({ st with client := none }, "err " ++ showErr e)
-        | .ok c => ({ st with client := some c }, "ok " ++ showClient c)
+          drift := drift, pruning := prune, fuel := fuelDefault, sigOK := (fun _ _ s => s == 1) }
+        match (kv rest "keep"), st.client with
+        | some "1", some base =>
+          match (kv rest "opts").bind String.toNat? with
+          | none => bad
+          | some opts =>
+            let (c, e) := newClientOn base cfg primary wits (mkSched order) (opts != 0) period h hv
+            match e with
+            | none => ({ st with client := some c, alive := true }, "ok " ++ showClient c)
+            | some er => ({ st with client := some c, alive := false },
+                s!"err {showErr er} {showStore c}")
+        | some "1", none => bad
+        | some _, _ => bad
+        | none, _ =>
+          match newClient cfg primary wits (mkSched order) period h hv with
+          | .error e => ({ st with client := none, alive := false }, "err " ++ showErr e)
+          | .ok c => ({ st with client := some c, alive := true }, "ok " ++ showClient c)
     | _, _, _, _, _, _, _, _, _, _, _, _ => bad
   | "verify" :: rest =>
-    match st.client, (kv rest "h").bind String.toInt?, (kv rest "now").bind String.toInt?,
+    match (if st.alive then st.client else none), (kv rest "h").bind String.toInt?, (kv rest "now").bind String.toInt?,
           (kv rest "order").bind natList with
     | some c, some h, some now, some order =>
       let (c', r) := verifyLightBlockAtHeight { c with sched := mkSched order } h now
@@ -181,7 +217,7 @@ def step (st : St) (toks : List String) : St × String :=
         (match r with | .ok b => "ok " ++ showBlk b | .error e => "err " ++ showErr e) ++ " " ++ showClient c')
     | _, _, _, _ => bad
   | "update" :: rest =>
-    match st.client, (kv rest "now").bind String.toInt?, (kv rest "order").bind natList with
+    match (if st.alive then st.client else none), (kv rest "now").bind String.toInt?, (kv rest "order").bind natList with
     | some c, some now, some order =>
       let (c', r) := update { c with sched := mkSched order } now
       ({ st with client := some c' },
@@ -190,6 +226,18 @@ def step (st : St) (toks : List String) : St × String :=
           | .ok none => "ok -"
           | .error e => "err " ++ showErr e) ++ " " ++ showClient c')
     | _, _, _ => bad
+  | ["cleanup"] =>
+    match (if st.alive then st.client else none) with
+    | some c => let c' := cleanup c; ({ st with client := some c' }, "ok " ++ showClient c')
+    | none => bad
+  | "vheader" :: rest =>
+    match (if st.alive then st.client else none), ((kv rest "blk").bind String.toNat?).bind (lookup st.blks),
+          (kv rest "now").bind String.toInt?, (kv rest "order").bind natList with
+    | some c, some b, some now, some order =>
+      let (c', r) := verifyHeader { c with sched := mkSched order } b.hash b.height now
+      ({ st with client := some c' },
+        (match r with | .ok _ => "ok" | .error e => "err " ++ showErr e) ++ " " ++ showClient c')
+    | _, _, _, _ => bad
   | ["level", a, b] =>
     match a.toNat?, b.toNat? with
     | some x, some y => (st, if validateTrustLevel { num := x, den := y } then "ok" else "err")
